@@ -251,6 +251,9 @@ class MDAQuasiNewton(BaseMDARoot):
         self._warn_convergence_criteria()
 
         self._update_local_data_from_array(y_opt.x)
+        # The outputs that are not coupling variables shall be consistent with the
+        # solution and not with the last point evaluated by the algorithm.
+        self._execute_disciplines_and_update_local_data()
 
         if self.settings.method in self._METHODS_SUPPORTING_CALLBACKS:
             self.io.update_output_data({
